@@ -863,6 +863,9 @@ func (m *Monitor) afterInvoke(i int, op *Op, f *Fn, rec *OpRec) {
 	{
 		ii := &invInfo{f: f, s: op.Scope, verdict: cl, failedFn: -1, av: st.av, cyc: st.cycAll || st.cycReq}
 		for _, e := range append(append([]*ExecRec(nil), st.failed...), st.panicked...) {
+			if (e.Err != nil && e.Err.Inner != nil) || (e.Pan != nil && e.Pan.Inner != nil) {
+				ii.foreign = true
+			}
 			if e.Fn == f.ID {
 				ii.selfFail = true
 			} else if ii.failedFn < 0 {
